@@ -81,6 +81,24 @@ Check mv_history_crash_safe :
                 mv_open es f = Some (nlen (st_content s), st_content s).
 Print Assumptions mv_history_crash_safe.
 
+(* a directory store: any history of record publications (PlainBlobStore::put: temporary name, fsync, rename),
+   interrupted anywhere: every file that is not a temporary name is as before the history or holds the complete
+   data of one of the puts to that name - no torn record is ever visible under a record name *)
+Theorem puts_history_crash_safe :
+  forall (h : list (N * N * list N)) d d',
+    (forall p t img, In (p, t, img) h -> t <> p) ->
+    crash d (puts_ops h) d' ->
+    forall q, (forall p t img, In (p, t, img) h -> q <> t) ->
+      d' q = d q \/ exists t img, In (q, t, img) h /\ d' q = Some img.
+Proof. exact puts_history_crash_safe_proof. Qed.
+Check puts_history_crash_safe :
+  forall (h : list (N * N * list N)) d d',
+    (forall p t img, In (p, t, img) h -> t <> p) ->
+    crash d (puts_ops h) d' ->
+    forall q, (forall p t img, In (p, t, img) h -> q <> t) ->
+      d' q = d q \/ exists t img, In (q, t, img) h /\ d' q = Some img.
+Print Assumptions puts_history_crash_safe.
+
 (* the crash relation composes over segments whose writes are all fsynced inside the segment *)
 Theorem crash_compose :
   forall d a b d', sealed a -> crash d (a ++ b) d' -> crash d a d' \/ crash (apply_all d a) b d'.
